@@ -338,6 +338,22 @@ def weave_fn(fn_text, contract, unit, log, features_on, in_trait_impl=False, rea
                 raise LostAnchor("%s: @rewrite %s expects %d occurrence(s) of %r, found %d" % (name, rule, count, old, n))
             text = text.replace(old, new)
             log.append(dict(rule=rule, fn=name, what='%r => %r (x%d)' % (old, new, count)))
+    # R6: `&dyn Fn(A) -> B` parameters become a generic `&F` (static instead of dynamic dispatch of the same closure)
+    k6 = 0
+    while True:
+        m6 = re.search(r'(\w+)\s*:\s*&dyn\s+(Fn(?:Mut)?\([^)]*\)\s*->\s*[\w:]+)', text[:text.find('{') if '{' in text else len(text)])
+        if not m6:
+            break
+        gname = 'FDyn%d' % k6
+        k6 += 1
+        bound = m6.group(2)
+        text = text[:m6.start()] + '%s: &%s' % (m6.group(1), gname) + text[m6.end():]
+        fm6 = re.search(r'\bfn\s+\w+\s*(<)?', text)
+        if fm6.group(1):
+            text = text[:fm6.end()] + '%s: %s, ' % (gname, bound) + text[fm6.end():]
+        else:
+            text = text[:fm6.end()] + '<%s: %s>' % (gname, bound) + text[fm6.end():]
+        log.append(dict(rule='R6', fn=name, what='&dyn %s -> generic &%s' % (bound, gname)))
     mask = code_mask(text)
     # header end
     depth = 0
@@ -368,25 +384,31 @@ def weave_fn(fn_text, contract, unit, log, features_on, in_trait_impl=False, rea
 
     # R8 result binder
     if contract and contract.result:
-        mm = None
-        # last '->' at depth 0 in header
-        d = 0
-        pos = None
         hm = code_mask(header)
-        for k in range(len(header) - 1):
-            if not hm[k]:
-                continue
-            if header[k] in '([<':
-                d += 1 if header[k] != '<' else 0
-            if header[k] in '([':
-                pass
-            if header[k] in ')]':
-                d -= 1
-            if header[k] == '-' and header[k + 1] == '>' and d == 0:
-                pos = k
-        if pos is None:
+        fm8 = re.search(r'\bfn\s+\w+', header)
+        k = fm8.end()
+        # skip generics
+        while k < len(header) and header[k].isspace():
+            k += 1
+        if k < len(header) and header[k] == '<':
+            d = 0
+            while k < len(header):
+                if hm[k]:
+                    if header[k] == '<':
+                        d += 1
+                    elif header[k] == '>' and header[k - 1] != '-':
+                        d -= 1
+                        if d == 0:
+                            k += 1
+                            break
+                k += 1
+        while k < len(header) and header[k] != '(':
+            k += 1
+        close = match_brace(header, hm, k)
+        am = re.match(r'\s*->', header[close + 1:])
+        if not am:
             raise LostAnchor("%s: @result but no return type" % name)
-        # return type runs to 'where' or end of header
+        pos = close + 1 + am.end() - 2
         rt_end = len(header)
         wm = re.search(r'\bwhere\b', header[pos:])
         if wm:
@@ -620,13 +642,34 @@ def build_unit(unit_dir, repo, reach=False):
         add_file('prelude', rel)
     for rel in U.get('spec', []):
         add_file('spec', rel)
+    if U.get('lemmas'):
+        for rel in U['lemmas']:
+            add_file('spec', rel)
 
-    def emit_fn(src, path, s, h, e, group_serves, in_trait_impl):
+    def emit_fn(src, path, s, h, e, group_serves, in_trait_impl, mono=None):
         key = (src.path, tuple(path))
         c = contracts.get(key)
         if c:
             used.add(key)
         fn_text = src.text[s:e]
+        if mono:
+            # R18: the generic body instantiated at the type the interpreter uses (what rustc's monomorphisation does)
+            fm = code_mask(fn_text)
+            for tp, ty in mono.items():
+                out = []
+                last = 0
+                n = 0
+                for mm in re.finditer(r'\b%s\b' % re.escape(tp), fn_text):
+                    if fm[mm.start()]:
+                        out.append(fn_text[last:mm.start()])
+                        out.append(ty)
+                        last = mm.end()
+                        n += 1
+                out.append(fn_text[last:])
+                fn_text = ''.join(out)
+                fm = code_mask(fn_text)
+                if n:
+                    G.log.append(dict(rule='R18', fn=path[-1], what='type parameter %s instantiated at %s (%d occurrences)' % (tp, ty, n)))
         attrs = src.attrs_before(s)
         for a in attrs:
             am = re.match(r'#\[cfg\(\s*(not\(\s*)?feature\s*=\s*"([^"]+)"', a)
@@ -723,6 +766,7 @@ def build_unit(unit_dir, repo, reach=False):
                     with open(os.path.join(unit_dir, item['extra'])) as f:
                         P.append(Piece(f.read() + '\n'))
                 wanted = item.get('fns', '*')
+                mono = item.get('mono')
                 in_trait_impl = kind == 'impl' and ' for ' in path[-1]
                 seen = set()
                 for (k, nm, fs, fh, fe) in src._children(h + 1, e - 1):
@@ -735,7 +779,7 @@ def build_unit(unit_dir, repo, reach=False):
                     if nm in item.get('skip', []):
                         continue
                     seen.add(nm)
-                    emit_fn(src, path + ['fn ' + nm], fs, fh, fe, item.get('serves'), in_trait_impl)
+                    emit_fn(src, path + ['fn ' + nm], fs, fh, fe, item.get('serves'), in_trait_impl, mono)
                 if wanted != '*':
                     missing = [w for w in wanted if w not in seen]
                     if missing:
